@@ -1,8 +1,11 @@
 /-
 C19 — Clock synchronisation recovers the affine map and only true event pairs (`ibldsp.utils.sync_timestamps`).
 
-Property theorems only (helper lemmas: `Lemmas/SyncTs.lean`, `Lemmas/SyncTsSound.lean`, `Analysis/LineFit.lean`).
-All statements are about the executable model `IblVerif.SyncTs` (`Model/SyncTs.lean`) over exact rationals and hold for
+Property theorems only (helper lemmas: `Lemmas/SyncTs.lean`, `Lemmas/SyncTsSound.lean`, `Lemmas/SyncTsCoarse.lean`,
+`Lemmas/SyncTsFit.lean`, `Lemmas/SyncTsClosed.lean`, `Analysis/LineFit.lean`).
+All statements are about the executable model `IblVerif.SyncTs` (`Model/SyncTs.lean`: the two matching passes with the coarse
+offset and the intermediate map as parameters; `Model/SyncTsFull.lean`: the closed model that computes both from
+`(tsa, tsb, tbin, linear)` — section "The closed model" at the end of this file) over exact rationals and hold for
 ALL trains `tsa tsb : List ℚ` (any length, any spacing), all offsets `Δ`, thresholds `θ` (= `tbin`) and intermediate
 maps `fmap`; the hypotheses that the property's quantifier supplies (affine clocks, bounded jitter, minimal gap) are
 explicit.  Ground truth: `Truth na nb` labels every event of either train with the underlying event it observes;
@@ -14,6 +17,9 @@ recovery rate, the 1 ms tolerance and the ppm accuracy under jitter.  `interp_ex
 the hypothesis of `pass2_sound` can indeed fail for the interpolating mode (known finding).
 -/
 import IblVerif.Lemmas.SyncTsSound
+import IblVerif.Lemmas.SyncTsCoarse
+import IblVerif.Lemmas.SyncTsFit
+import IblVerif.Lemmas.SyncTsClosed
 import IblVerif.Analysis.LineFit
 import Mathlib.Tactic.NormNum
 import Mathlib.Tactic.IntervalCases
@@ -401,5 +407,191 @@ example : lsqSlope (fun k : Fin 30 => (k.val : ℚ))
     (fun k : Fin 30 => (1 + 1/10000) * (k.val : ℚ) + 12 - (k.val : ℚ)) (1/10000) 12
     (fun k => by ring) 0 1 (by norm_num)
   rw [h.1]; norm_num
+
+/-! ### The closed model: coarse offset, fit and interpolant computed inside the model (`Model/SyncTsFull.lean`) -/
+
+/-- `np.argmax(correlate(x, y, "full"))` on 0/1 histograms, as the model computes it from the sorted differences of the
+occupied bins, IS the first maximum of the correlation over ALL lags: the value returned is the coincidence count at the
+returned lag, no lag has a larger count and every smaller lag has a strictly smaller one. -/
+theorem corr_peak_is_first_max (A B : List Int) (hB : B.Nodup) (l : Int) (m : Nat) (h : peakLag A B = some (l, m)) :
+    m = corrAt A B l ∧ 0 < m ∧ (∀ d, corrAt A B d ≤ m) ∧ (∀ d, d < l → corrAt A B d < m) :=
+  peakLag_spec A B hB l m h
+
+/-- Non-vacuity: any two non-empty sets of bins have a peak. -/
+example : ∃ r, peakLag [3, 5, 8] [0, 2, 5] = some r := peakLag_isSome _ _ (by decide) (by decide)
+
+/-- The general bound on the coarse offset, for every pair of trains: `delta_t` lies within half a bin of `lag·tbin`, where
+`lag` is the first maximum of the cross-correlation of the two 0/1 histograms (bins of width `tbin` counted from the earliest
+event), `v1` its value and `v0`, `v2` the values next to it. -/
+theorem coarse_offset_within_half_bin (tsa tsb : List ℚ) (tbin : ℚ) (hb : 0 ≤ tbin) (c : Coarse)
+    (h : coarse tsa tsb tbin = some c) :
+    ∃ tmin tmax, c.n = nbins tmin tmax tbin ∧
+      c.v1 = corrAt (occupied tmin tbin tsa) (occupied tmin tbin tsb) c.lag ∧ 0 < c.v1 ∧
+      (∀ d, corrAt (occupied tmin tbin tsa) (occupied tmin tbin tsb) d ≤ c.v1) ∧
+      (∀ d, d < c.lag → corrAt (occupied tmin tbin tsa) (occupied tmin tbin tsb) d < c.v1) ∧
+      |c.delta - (c.lag : ℚ) * tbin| ≤ tbin / 2 := by
+  unfold coarse at h
+  split at h
+  · cases h
+  · split at h
+    · rename_i tmin tmax _ _
+      obtain ⟨h1, h2, _, _, h5, h6, h7, h8⟩ := coarseOfBins_spec _ _ _ tbin c (occupied_nodup _ _ _) hb h
+      exact ⟨tmin, tmax, h1, h2, h5, h6, h7, h8⟩
+    · cases h
+
+/-- Exact copies: when `tsa` is `tsb` moved by a whole number `s` of bins, the coarse step returns `delta_t = s·tbin`
+EXACTLY, for every train `tsb` (any number of events, any spacing, several events per bin allowed): the correlation has its
+unique maximum at lag `s` (all occupied bins coincide; a finite set of bins is not invariant under a non-zero shift), it is
+symmetric around it, so the parabolic refinement is zero. -/
+theorem coarse_offset_exact_on_shifted_copy (tsb : List ℚ) (tbin : ℚ) (s : ℤ) (hb : tbin ≠ 0) (hne : tsb ≠ []) :
+    ∃ c, coarse (tsb.map (· + s * tbin)) tsb tbin = some c ∧ c.lag = s ∧ c.delta = (s : ℚ) * tbin ∧ c.v0 = c.v2 ∧
+      c.ties = 1 ∧ ∃ tmin, c.v1 = (occupied tmin tbin tsb).length :=
+  coarse_shifted_copy tsb tbin s hb hne
+
+/-- Non-vacuity of the last two theorems: three events, clock A 0.7 s (7 bins) ahead. -/
+example : ∃ c, coarse ([0, 13/10, 5].map (· + ((7 : ℤ) : ℚ) * (1/10))) [0, 13/10, 5] (1/10) = some c ∧
+    |c.delta - (c.lag : ℚ) * (1/10)| ≤ (1/10) / 2 := by
+  obtain ⟨c, hc, _⟩ := coarse_offset_exact_on_shifted_copy [0, 13/10, 5] (1/10) 7 (by norm_num) (by decide)
+  obtain ⟨_, _, _, _, _, _, _, h⟩ := coarse_offset_within_half_bin _ _ (1/10) (by norm_num) c hc
+  exact ⟨c, hc, h⟩
+
+/-- The closed model is the two-pass matching `sync` of the first part of this file with its two parameters filled in:
+`Δ` = the coarse offset computed by `c`, `θ = tbin`, `fmap` = `_interp_fcn` on the first-pass matches.  Hence every theorem
+above about `sync` (`matching_injective`, `pairs_within_threshold`, `sync_exact_pairs`) holds of the closed model's pairs;
+the reported drift is `ab[0]·1e6` of the fit through the final matches.  (`co` = `coarse tsa tsb tbin` gives `syncClosed`,
+the double-precision binning `coarseF` gives what the driver runs.) -/
+theorem closed_is_sync (co : Option Coarse) (tsa tsb : List ℚ) (tbin : ℚ) (linear : Bool) (hna : tsa ≠ []) (hnb : tsb ≠ [])
+    (ps : List (Nat × Nat)) (drift : ℚ) (nodes : List (ℚ × ℚ)) (c : Coarse)
+    (h : syncClosedOf co tsa tsb tbin linear = .ok ps drift nodes c) :
+    co = some c ∧ sync c.delta tbin tsa tsb (fmapClosed linear tsa tsb) = .ok ps ∧
+      ∃ ab, fitAb nodes = some ab ∧ drift = driftPpm ab.1 ∧
+        ∃ ib, ps = pairs ib ∧ nodes = matched tsa tsb ib := by
+  unfold syncClosedOf at h
+  cases co with
+  | none => simp at h
+  | some c' =>
+    simp only at h
+    cases hm : mapOf linear (matched tsa tsb (pass1 c'.delta (threshold tbin) tsa tsb)) with
+    | none => simp [hm] at h
+    | some f =>
+      simp only [hm] at h
+      cases hf : fitAb (matched tsa tsb (finish tbin (pass1 c'.delta (threshold tbin) tsa tsb) (tsa.map f) tsb)) with
+      | none => simp [hf] at h
+      | some ab =>
+        simp only [hf, Closed.ok.injEq] at h
+        obtain ⟨h1, h2, h3, h4⟩ := h
+        subst h4
+        refine ⟨rfl, ?_, ab, ?_, h2.symm, _, h1.symm, h3.symm⟩
+        · unfold sync fmapClosed
+          have : ¬ (tsa = [] ∨ tsb = []) := by simp [hna, hnb]
+          simp only [this, if_false]
+          unfold threshold at hm h1
+          rw [hm, ← h1]
+          rfl
+        · rw [← h3]; exact hf
+
+/-- `matching_injective` for the closed model (the coarse offset and the fitted map are no longer inputs). -/
+theorem closed_matching_injective (tsa tsb : List ℚ) (tbin : ℚ) (linear : Bool)
+    (hsep : ∀ (i i' : Nat) (a a' : ℚ), i < i' → tsa[i]? = some a → tsa[i']? = some a' → 2 * tbin ≤ |a - a'|)
+    (ps : List (Nat × Nat)) (drift : ℚ) (nodes : List (ℚ × ℚ)) (c : Coarse)
+    (h : syncClosed tsa tsb tbin linear = .ok ps drift nodes c) :
+    (ps.map (·.1)).Nodup ∧ (ps.map (·.2)).Nodup := by
+  unfold syncClosed at h
+  have hne : tsa ≠ [] ∧ tsb ≠ [] := by
+    by_contra hc
+    have : tsa = [] ∨ tsb = [] := by
+      by_cases h1 : tsa = []
+      · exact Or.inl h1
+      · by_cases h2 : tsb = []
+        · exact Or.inr h2
+        · exact absurd ⟨h1, h2⟩ hc
+    unfold coarse at h
+    simp only [this, if_true] at h
+    simp [syncClosedOf] at h
+  obtain ⟨_, hs, _⟩ := closed_is_sync _ tsa tsb tbin linear hne.1 hne.2 ps drift nodes c h
+  exact matching_injective c.delta tbin tsa tsb _ hsep ps hs
+
+/-- The whole function on the noise-free case, end to end (nothing is an input any more): `tsa` an exact copy of `tsb`
+moved by a whole number `s` of bins, events at least one bin apart, at least two events.  In either mode the closed model
+returns exactly the pairs `(i, i)` of ALL events, drift exactly 0 ppm, and a map that is exactly the true map
+`x ↦ x − s·tbin` at every `x` (held-out or not); the coarse offset is exactly `s·tbin`. -/
+theorem closed_exact_copy (tsb : List ℚ) (tbin : ℚ) (s : ℤ) (linear : Bool) (hb : 0 < tbin)
+    (hgap : tsb.Pairwise (fun b b' => b + tbin ≤ b')) (hlen : 2 ≤ tsb.length) :
+    ∃ c nodes ps, syncClosed (tsb.map (· + (s : ℚ) * tbin)) tsb tbin linear = .ok ps 0 nodes c ∧
+      c.delta = (s : ℚ) * tbin ∧ (∀ i j, (i, j) ∈ ps ↔ (i = j ∧ i < tsb.length)) ∧
+      ∃ f, mapOf linear nodes = some f ∧ ∀ x, f x = x - (s : ℚ) * tbin :=
+  syncClosed_exact_copy tsb tbin s linear hb hgap hlen
+
+/-- Non-vacuity: three events 1.3 s and 3.7 s apart, clock A 0.7 s ahead, interpolating mode. -/
+example : ∃ c nodes ps, syncClosed ([0, 13/10, 5].map (· + ((7 : ℤ) : ℚ) * (1/10))) [0, 13/10, 5] (1/10) false = .ok ps 0 nodes c ∧
+    c.delta = ((7 : ℤ) : ℚ) * (1/10) := by
+  obtain ⟨c, nodes, ps, h, hd, _⟩ := closed_exact_copy [0, 13/10, 5] (1/10) 7 false (by norm_num)
+    (by simp only [List.pairwise_cons, List.mem_cons, List.not_mem_nil, or_false, forall_eq_or_imp, forall_eq]; norm_num)
+    (by decide)
+  exact ⟨c, nodes, ps, h, hd⟩
+
+/-- The executable fit the closed model (and the driver, against `np.polyfit`) runs is the solution of the normal
+equations the fit theorems above are about. -/
+theorem fit_is_normal_equations {n : ℕ} (x y : Fin n → ℚ) :
+    fitLine (List.ofFn x) (List.ofFn y) =
+      if (n : ℚ) * ∑ k, x k ^ 2 - (∑ k, x k) ^ 2 = 0 then none else some (lsqSlope x y, lsqIntercept x y) :=
+  fitLine_ofFn x y
+
+/-- Both modes on exactly affine matches: if the matched times are related by `tsb = α·tsa + β` (at least two matches, no
+`tsa` twice), the model's `drift_ppm` is `(α − 1)·10⁶` and the returned map — least-squares line OR chord interpolant, sorted
+or not — is the true map at every `x`; in particular linear and interpolating mode agree everywhere. -/
+theorem closed_map_exact_on_collinear (nodes : List (ℚ × ℚ)) (α β : ℚ)
+    (hline : ∀ p ∈ nodes, p.2 = α * p.1 + β) (hnd : (nodes.map (·.1)).Nodup) (hlen : 2 ≤ nodes.length) :
+    (∃ ab, fitAb nodes = some ab ∧ driftPpm ab.1 = (α - 1) * 1000000) ∧
+    ∃ f g, mapOf true nodes = some f ∧ mapOf false nodes = some g ∧ ∀ x, f x = α * x + β ∧ g x = α * x + β ∧ f x = g x := by
+  obtain ⟨f, hf, hfx⟩ := mapOf_on_collinear true nodes α β hline hnd hlen
+  obtain ⟨g, hg, hgx⟩ := mapOf_on_collinear false nodes α β hline hnd hlen
+  refine ⟨?_, f, g, hf, hg, fun x => ⟨hfx x, hgx x, by rw [hfx, hgx]⟩⟩
+  obtain ⟨p, q, rest, rfl⟩ : ∃ p q rest, nodes = p :: q :: rest := by
+    match nodes, hlen with
+    | p :: q :: rest, _ => exact ⟨p, q, rest, rfl⟩
+  have hpq : p.1 ≠ q.1 := by
+    simp only [List.map_cons, List.nodup_cons, List.mem_cons, not_or] at hnd
+    exact hnd.1.1
+  exact ⟨_, fitAb_on_collinear _ α β hline p q (by simp) (by simp) hpq, rfl⟩
+
+/-- Non-vacuity: three matches on a 100 ppm clock 12 s ahead. -/
+example : ∃ f g, mapOf true [(0, 12), (1, 13 + 1/10000), (3, 15 + 3/10000)] = some f ∧
+    mapOf false [(0, 12), (1, 13 + 1/10000), (3, 15 + 3/10000)] = some g ∧ f 2 = g 2 := by
+  obtain ⟨_, f, g, hf, hg, h⟩ := closed_map_exact_on_collinear [(0, 12), (1, 13 + 1/10000), (3, 15 + 3/10000)]
+    (1 + 1/10000) 12 (by intro p hp; simp at hp; rcases hp with rfl | rfl | rfl <;> norm_num) (by decide) (by decide)
+  exact ⟨f, g, hf, hg, (h 2).2.2⟩
+
+/-- The interpolating map passes through every matched pair (samples sorted by strictly increasing `tsa`). -/
+theorem interp_through_samples (nodes : List (ℚ × ℚ)) (hs : nodes.Pairwise (fun p q => p.1 < q.1))
+    (hlen : 2 ≤ nodes.length) (p : ℚ × ℚ) (hp : p ∈ nodes) : interpEval nodes p.1 = some p.2 :=
+  interpEval_at_node nodes hs hlen p hp
+
+example : interpEval [(0, 12), (1, 13), (3, 16)] 1 = some 13 :=
+  interp_through_samples _ (by decide) (by decide) (1, 13) (by decide)
+
+/-- The returned linear map is strictly increasing whenever the matched `b` times increase with the matched `a` times
+(which they do when the pairs are true correspondences of an increasing clock map): `1 + ab[0]` is the least-squares slope
+of `tsb` on `tsa`, positive by Chebyshev's sum inequality. -/
+theorem linear_map_increasing {n : ℕ} (ta tb : Fin n → ℚ) (hmono : ∀ k l, ta k < ta l → tb k < tb l)
+    (k l : Fin n) (hkl : ta k < ta l) :
+    let ab0 := lsqSlope ta (fun i => tb i - ta i)
+    let ab1 := lsqIntercept ta (fun i => tb i - ta i)
+    0 < 1 + ab0 ∧ ∀ x x' : ℚ, x < x' → x * (1 + ab0) + ab1 < x' * (1 + ab0) + ab1 := by
+  simp only
+  have hpos : 0 < 1 + lsqSlope ta (fun i => tb i - ta i) := by
+    rw [lsqSlope_sub_self ta tb k l hkl.ne]
+    have := lsqSlope_pos ta tb hmono k l hkl
+    linarith
+  refine ⟨hpos, fun x x' hx => ?_⟩
+  have := mul_lt_mul_of_pos_right hx hpos
+  linarith
+
+example : 0 < 1 + lsqSlope (fun k : Fin 3 => (k.val : ℚ)) (fun k : Fin 3 => (2 * (k.val : ℚ) + 5) - (k.val : ℚ)) :=
+  (linear_map_increasing (fun k : Fin 3 => (k.val : ℚ)) (fun k : Fin 3 => 2 * (k.val : ℚ) + 5)
+    (fun k l h => by
+      have h' : (k.val : ℚ) < (l.val : ℚ) := h
+      show 2 * (k.val : ℚ) + 5 < 2 * (l.val : ℚ) + 5
+      linarith) 0 1 (by norm_num)).1
 
 end IblVerif.C19
